@@ -353,7 +353,8 @@ func (m *Mast) flush(ctx context.Context) (string, error) {
 		return nil, fmt.Errorf("unknown node format '%v'", m.nodeFormat)
 	}
 
-	str, err := node.store(ctx, m.persist, m.nodeCache, versionedMarshaler, storeQ)
+	var commit []func()
+	str, err := node.store(ctx, m.persist, m.nodeCache, versionedMarshaler, storeQ, &commit)
 	close(storeQ)
 	wg.Wait()
 	if err != nil {
@@ -361,6 +362,11 @@ func (m *Mast) flush(ctx context.Context) (string, error) {
 	}
 	if firstStoreError != nil {
 		return "", firstStoreError
+	}
+	// every node is in the store: only now do the in-memory nodes become clean,
+	// shared, linked by hash and known to the cache
+	for _, f := range commit {
+		f()
 	}
 	m.root = str
 	return str, nil
